@@ -12,10 +12,10 @@ open Chalk.FixedPoint.Cyc (JE JA MinLe InCache InGraph Def Undef flagAt StackExt
   drain_sub drain_keep drained)
 
 section
-variable {inst : Instance} {P : Nat → Prop} {dom : List Nat} {lvl : Nat → Nat}
+variable {inst : Instance} {P : Nat → Prop} {dom : List Nat} {lvl : Nat → Nat} {fx : Bool}
 variable {s0 st s1 : St} {g : Nat} {old cur : V} {m : Min} {new : List Node}
 
-theorem After.new_index (A : After inst P dom lvl s0 st s1 g old cur m new) {n : Node} (hn : n ∈ new) :
+theorem After.new_index (A : After inst P dom lvl fx s0 st s1 g old cur m new) {n : Node} (hn : n ∈ new) :
     ∃ i, s0.graph.length < i ∧ s1.graph[i]? = some n := by
   obtain ⟨j, hj⟩ := List.getElem?_of_mem hn
   refine ⟨s0.graph.length + (j + 1), by omega, ?_⟩
@@ -24,7 +24,7 @@ theorem After.new_index (A : After inst P dom lvl s0 st s1 g old cur m new) {n :
   rw [this, List.getElem?_cons_succ]
   exact hj
 
-theorem After.drained_index (A : After inst P dom lvl s0 st s1 g old cur m new) {n : Node}
+theorem After.drained_index (A : After inst P dom lvl fx s0 st s1 g old cur m new) {n : Node}
     (hn : n ∈ drained g cur m new) :
     ∃ i n', s0.graph.length ≤ i ∧ s1.graph[i]? = some n' ∧ n'.goal = n.goal := by
   cases List.mem_cons.mp hn with
@@ -34,9 +34,9 @@ theorem After.drained_index (A : After inst P dom lvl s0 st s1 g old cur m new) 
     exact ⟨i, n, Nat.le_of_lt hi, hn', rfl⟩
 
 /-- the answers of the drained nodes are the true ones -/
-theorem After.drained_corr (A : After inst P dom lvl s0 st s1 g old cur m new)
+theorem After.drained_corr (A : After inst P dom lvl fx s0 st s1 g old cur m new)
     (hfl : ¬ flagAt s1.stack s0.stack.length ∨ old = cur) (hm : MinLe (some s0.graph.length) m) :
-    ∀ n : Node, n ∈ drained g cur m new → Holds P n.solution n.goal := by
+    ∀ n : Node, n ∈ drained g cur m new → n.solution ≠ .ambig → Holds P n.solution n.goal := by
   -- the optimistic ones justify each other
   have hS : ∀ k, (∃ n : Node, n ∈ drained g cur m new ∧ n.goal = k ∧ n.solution = topOf inst k) →
       JV inst (topOf inst k) (Opt inst P (fun j => ∃ n : Node, n ∈ drained g cur m new ∧ n.goal = j ∧
@@ -73,9 +73,10 @@ theorem After.drained_corr (A : After inst P dom lvl s0 st s1 g old cur m new)
       have e1 : g = k := hgo
       subst e1
       have e2 : cur = topOf inst g := hv
-      cases A.fact with
-      | inl h => rw [← e2]; exact JV.mono (fun j hj => hw hm hj) h.2
-      | inr h => rw [h.1] at e2; exact absurd e2.symm (topOf_ne_botOf inst g)
+      rcases A.fact with h | h | h
+      · rw [← e2]; exact JV.mono (fun j hj => hw hm hj) h.2
+      · rw [h.1] at e2; exact absurd e2.symm (topOf_ne_botOf inst g)
+      · rw [h.1] at e2; exact absurd e2.symm (topOf_ne_ambig inst g)
     | inr e =>
       obtain ⟨i, _, hn1⟩ := A.new_index e
       rw [← hgo] at hv ⊢
@@ -83,32 +84,37 @@ theorem After.drained_corr (A : After inst P dom lvl s0 st s1 g old cur m new)
       rw [hv] at this
       exact JV.mono (fun j hj => hw (hm.trans (A.hnew n e).2) hj) this
   have htgt := A.L.hP.coind _ hS
-  intro n hn
-  have hval : n.solution = topOf inst n.goal ∨ n.solution = botOf inst n.goal := by
+  intro n hn hna
+  have hval : n.solution = topOf inst n.goal ∨ n.solution = botOf inst n.goal ∨ n.solution = .ambig := by
     cases List.mem_cons.mp hn with
     | inl e => rw [e]; exact A.cur_val
     | inr e =>
       obtain ⟨i, _, hn1⟩ := A.new_index e
       exact A.i1.val i n hn1
-  cases hval with
-  | inl h => rw [h]; exact htgt n.goal ⟨n, hn, rfl, h⟩
-  | inr h =>
-    cases List.mem_cons.mp hn with
+  rcases hval with h | h | h
+  · rw [h]; exact htgt n.goal ⟨n, hn, rfl, h⟩
+  · cases List.mem_cons.mp hn with
     | inl e => rw [e] at h ⊢; exact A.cur_holds h
     | inr e =>
       obtain ⟨i, _, hn1⟩ := A.new_index e
       exact A.i1.approx i n hn1 h
+  · exact absurd h hna
 
 /-- the invariant of a state that keeps the old graph, pops the stack and has correct cache entries -/
-theorem After.inv_old (A : After inst P dom lvl s0 st s1 g old cur m new) {s6 : St}
-    (hext : StackExt s0.stack s6.stack) (hq : s6.oracle = [] ∧ s6.oracleDefault = true ∧ s6.interrupted = false)
+theorem After.inv_old (A : After inst P dom lvl fx s0 st s1 g old cur m new) {s6 : St}
+    (hext : StackExt s0.stack s6.stack) (e1 : s6.oracle = s1.oracle) (e2 : s6.oracleDefault = s1.oracleDefault)
+    (e3 : s6.interrupted = s1.interrupted)
     (hnode : ∀ (d : Nat) (e : StackEntry), s6.stack[d]? = some e → ∃ (i : Nat) (n : Node),
       s0.graph[i]? = some n ∧ n.stackDepth = some d ∧ e.coinductiveGoal = inst.coind n.goal)
     (hg6 : s6.graph = s0.graph) (hok : ∀ k v, InCache s6 k v → Holds P v k)
     (hdisj : ∀ (i : Nat) (n : Node), s0.graph[i]? = some n → ∀ v, ¬ InCache s6 n.goal v) :
-    Inv inst P dom lvl s6 := by
+    Inv inst P dom lvl fx s6 := by
   have hflag : ∀ d, flagAt s0.stack d → flagAt s6.stack d := fun d hd => hext.flag hd
-  refine ⟨hq, hok, ?_, ?_, ?_, ?_, ?_, ?_, ?_, ?_, ?_, ?_, ?_, ?_⟩
+  refine ⟨A.fixes5 e1 e2 e3, ?_, hok, ?_, ?_, ?_, ?_, ?_, ?_, ?_, ?_, ?_, ?_, ?_, ?_⟩
+  · intro i n hn ha
+    rw [hg6] at hn
+    rw [e3]
+    exact A.i1.amb i n (A.g0 hn) ha
   · intro d e he
     obtain ⟨i, n, hn, h2⟩ := hnode d e he
     exact ⟨i, n, by rw [hg6]; exact hn, h2⟩
@@ -131,14 +137,30 @@ theorem After.inv_old (A : After inst P dom lvl s0 st s1 g old cur m new) {s6 : 
     exact JV.mono (fun j hj => hj.from0 ⟨[], by rw [hg6, List.append_nil]⟩ hflag) (A.L.i0.just i n hn hd htop)
   · rw [hg6]; exact A.L.i0.lvlLinks
 
-theorem After.finish_cache (A : After inst P dom lvl s0 st s1 g old cur m new) {s6 : St}
+theorem After.finish_cache (A : After inst P dom lvl fx s0 st s1 g old cur m new) {s6 : St}
     (Pp : Popped s0 s1 { s6 with cache := s1.cache })
     (hfl : ¬ flagAt s1.stack s0.stack.length ∨ old = cur) (hm : MinLe (some s0.graph.length) m)
     (hg6 : s6.graph = s0.graph) (cc1 cc6 : List (Nat × V)) (hc1 : s1.cache = some cc1)
     (hc6 : s6.cache = some cc6)
-    (hdr : drainToCache s0.graph.length (drained g cur m new) cc1 = .ok cc6) :
-    Inv inst P dom lvl s6 ∧ (∀ lb, Step inst P s0 s6 lb) ∧ Holds P cur g := by
-  have hcorr := A.drained_corr hfl hm
+    (hdr : drainToCache s0.graph.length (drained g cur m new) cc1 = .ok cc6)
+    (hni : s1.interrupted = false) :
+    Inv inst P dom lvl fx s6 ∧ (∀ lb, Step inst P s0 s6 lb) ∧ Holds P cur g := by
+  have hna : ∀ n : Node, n ∈ drained g cur m new → n.solution ≠ .ambig := by
+    intro n hn ha
+    have : s1.interrupted = true := by
+      cases List.mem_cons.mp hn with
+      | inl e =>
+        rw [e] at ha
+        exact A.amb ha
+      | inr e =>
+        obtain ⟨i, _, hn1⟩ := A.new_index e
+        exact A.i1.amb i n hn1 ha
+    rw [hni] at this
+    cases this
+  have hcorr := fun n hn => A.drained_corr hfl hm n hn (hna n hn)
+  have h6i : s6.interrupted = s1.interrupted := Pp.interrupted
+  have h6o : s6.oracle = s1.oracle := Pp.oracle
+  have h6d : s6.oracleDefault = s1.oracleDefault := Pp.oracleDefault
   have hext : StackExt s0.stack s6.stack := A.popExt (s5 := { s6 with cache := s1.cache }) Pp
   have hfresh : ∀ n : Node, n ∈ drained g cur m new → ∀ v, ¬ InCache s1 n.goal v := by
     intro n hn v hc
@@ -161,13 +183,8 @@ theorem After.finish_cache (A : After inst P dom lvl s0 st s1 g old cur m new) {
     refine ⟨cc6, hc6, drain_keep _ _ _ _ hdr k v hk ?_⟩
     intro n hn hgo
     exact hfresh n hn v (by rw [hgo]; exact ⟨cc1, hc1, hk⟩)
-  have hinv : Inv inst P dom lvl s6 := by
-    refine A.inv_old hext ?_ (A.popNode (s5 := { s6 with cache := s1.cache }) Pp) hg6 ?_ ?_
-    · have h1 := Pp.oracle
-      have h2 := Pp.oracleDefault
-      have h3 := Pp.interrupted
-      simp only at h1 h2 h3
-      rw [h1, h2, h3]; exact A.i1.quiet
+  have hinv : Inv inst P dom lvl fx s6 := by
+    refine A.inv_old hext h6o h6d h6i (A.popNode (s5 := { s6 with cache := s1.cache }) Pp) hg6 ?_ ?_
     · intro k v h
       cases hsub k v h with
       | inl h => exact A.i1.cacheOK k v h
@@ -185,7 +202,8 @@ theorem After.finish_cache (A : After inst P dom lvl s0 st s1 g old cur m new) {
         omega
   refine ⟨hinv, fun lb => ⟨⟨[], by rw [hg6, List.append_nil], fun n hn => by cases hn⟩, hext,
     fun k v h => hkeep k v (A.cacheExt k v h), ?_, ?_,
-    by rw [hc6, ← A.L.cacheMode, ← A.step.cacheMode, hc1]; rfl⟩, hcorr _ (List.mem_cons_self ..)⟩
+    by rw [hc6, ← A.L.cacheMode, ← A.step.cacheMode, hc1]; rfl,
+    (A.flags h6o h6d h6i).1, (A.flags h6o h6d h6i).2⟩, hcorr _ (List.mem_cons_self ..)⟩
   · intro k v h
     cases h with
     | inl h => exact Or.inl (hkeep k v (A.cacheExt k v h))
@@ -214,20 +232,21 @@ theorem After.finish_cache (A : After inst P dom lvl s0 st s1 g old cur m new) {
       rw [hg6] at hn
       exact absurd (Or.inr ⟨i, n, hn, h2⟩) (hu _)
 
-theorem After.finish_discard (A : After inst P dom lvl s0 st s1 g old cur m new) {s6 : St}
-    (Pp : Popped s0 s1 s6) (hfl : ¬ flagAt s1.stack s0.stack.length ∨ old = cur)
+theorem After.finish_discard (A : After inst P dom lvl fx s0 st s1 g old cur m new) {s6 : St}
+    (Pp : Popped s0 s1 s6) (hfl : cur ≠ .ambig → ¬ flagAt s1.stack s0.stack.length ∨ old = cur)
     (hm : MinLe (some s0.graph.length) m) (hg6 : s6.graph = s0.graph) :
-    Inv inst P dom lvl s6 ∧ (∀ lb, Step inst P s0 s6 lb) ∧ Holds P cur g := by
-  have hcorr := A.drained_corr hfl hm
+    Inv inst P dom lvl fx s6 ∧ (∀ lb, Step inst P s0 s6 lb) ∧ (cur ≠ .ambig → Holds P cur g) := by
   have hext : StackExt s0.stack s6.stack := A.popExt Pp
-  have hinv : Inv inst P dom lvl s6 := by
-    refine A.inv_old hext ?_ (A.popNode Pp) hg6 (fun k v h => A.i1.cacheOK k v (Pp.inCache.mp h)) ?_
-    · rw [Pp.oracle, Pp.oracleDefault, Pp.interrupted]; exact A.i1.quiet
+  have hinv : Inv inst P dom lvl fx s6 := by
+    refine A.inv_old hext Pp.oracle Pp.oracleDefault Pp.interrupted (A.popNode Pp) hg6
+      (fun k v h => A.i1.cacheOK k v (Pp.inCache.mp h)) ?_
     · intro i n hn v hc
       exact A.i1.disj i n (A.g0 hn) v (Pp.inCache.mp hc)
   refine ⟨hinv, fun lb => ⟨⟨[], by rw [hg6, List.append_nil], fun n hn => by cases hn⟩, hext,
     fun k v h => Pp.inCache.mpr (A.cacheExt k v h), ?_, ?_,
-    by rw [Pp.cache, A.step.cacheMode, A.L.cacheMode]⟩, hcorr _ (List.mem_cons_self ..)⟩
+    by rw [Pp.cache, A.step.cacheMode, A.L.cacheMode],
+    (A.flags Pp.oracle Pp.oracleDefault Pp.interrupted).1, (A.flags Pp.oracle Pp.oracleDefault Pp.interrupted).2⟩,
+    fun hne => A.drained_corr (hfl hne) hm _ (List.mem_cons_self ..) hne⟩
   · intro k v h
     cases h with
     | inl h => exact Or.inl (Pp.inCache.mpr (A.cacheExt k v h))
